@@ -35,3 +35,5 @@ def run(chk):
     from . import guardrules as _gr
     nd2_ = _gr.check_decisions(chk, c, 'C01-D', lambda fq_: fq_.startswith(('parser.parse_segment', 'parser.parse_field', 'parser.parse_component', 'parser.parse_subcomponent')))
     chk.floor('functions compared with the decision reference (C01-D)', nd2_, 1)
+    from . import memo as _memo
+    _memo.wire(chk, c, 'C01-M', lambda fi: fi.module.name not in ('validation', 'mllp'), 'the parser / encoder modules')
